@@ -574,6 +574,24 @@ DOMAIN = {"sample": "sample_pdk", "sky130": "sky130", "gf180": "gf180", "asap7":
 REGNAME = {"sample": "hdl21.pdk.sample_pdk.pdk", "sky130": "sky130_hdl21.pdk_logic", "gf180": "gf180_hdl21.pdk_logic", "asap7": "asap7_hdl21.pdk"}
 
 
+def registry_corpus():
+    """every default x every explicit target, by name and by module; no default with one / several PDKs registered"""
+    pd = ["sample", "sky130", "gf180", "asap7"]
+    out = []
+    for d in pd:
+        for by in ("name", "module"):
+            ops = [{"op": "register", "m": m} for m in pd] + [{"op": "set_default", "m": d, "by": by}, {"op": "compile", "arg": {"k": "none"}}]
+            for t in pd:
+                ops.append({"op": "compile", "arg": {"k": "name", "s": t}})
+                ops.append({"op": "compile", "arg": {"k": "module", "m": t}})
+            ops.append({"op": "compile", "arg": {"k": "none"}})
+            out.append(ops)
+    out.append([{"op": "compile", "arg": {"k": "none"}}, {"op": "register", "m": "gf180"}, {"op": "compile", "arg": {"k": "none"}}, {"op": "register", "m": "sample"},
+                {"op": "compile", "arg": {"k": "none"}}, {"op": "compile", "arg": {"k": "name", "s": "sample"}}, {"op": "compile", "arg": {"k": "module", "m": "asap7"}},
+                {"op": "compile", "arg": {"k": "name", "s": "asap7"}}, {"op": "compile", "arg": {"k": "name", "s": "nosuch"}}])
+    return out
+
+
 def registry_cases(rng, n):
     cases = []
     pd = ["sample", "sky130", "gf180", "asap7"]
@@ -753,7 +771,7 @@ def run(ctx):
         for kind, detail, fkey in judge_hier(c, im, mo, sem if "pkg" in im else None):
             rep.fail(kind, {"stream": "hierarchy", "case": c}, {"detail": detail, "refused": im.get("refused")}, finding_key=fkey)
     # ---- registry
-    rc = registry_cases(rng, 24 if ctx.quick else 300)
+    rc = registry_corpus() + registry_cases(rng, 24 if ctx.quick else 300)
     ri = common.pmap(run_registry, rc, chunk=1)
     ml = [registry_model_line(o) for o in rc]
     rm = ctx.drv.run([l for l, _ in ml])
